@@ -62,6 +62,11 @@ func (opts CollectJSONOptions) getSource() (<-chan *birch.Document, <-chan error
 				}
 				out <- doc
 			}
+			// a line that cannot be read in full (too long, or a
+			// failing reader) must not look like the end of the input
+			if err := stream.Err(); err != nil {
+				errs <- errors.Wrap(err, "problem reading input")
+			}
 		}()
 	case opts.FileName != "" && !opts.Follow:
 		go func() {
@@ -82,6 +87,9 @@ func (opts CollectJSONOptions) getSource() (<-chan *birch.Document, <-chan error
 					return
 				}
 				out <- doc
+			}
+			if err := stream.Err(); err != nil {
+				errs <- errors.Wrap(err, "problem reading input")
 			}
 		}()
 	case opts.FileName != "" && opts.Follow:
